@@ -17,7 +17,8 @@ class Obligation:
         self.rule = rule
         self.status = status  # discharged | violation | known
         self.detail = detail
-        self.where = where
+        # a Span object, a string or None: always kept as text (the records are written as JSON)
+        self.where = where if (where is None or isinstance(where, str)) else str(where)
         self.how = how
         self.nontrivial = nontrivial
 
@@ -147,6 +148,7 @@ class Check:
                         },
                         f,
                         indent=1,
+                        default=str,
                     )
                 replay_paths.append(p)
                 lines.append("VIOLATION property=%s replay=%s" % (self.pid, p))
@@ -206,7 +208,7 @@ class Check:
         }
         os.makedirs(EVIDENCE_DIR, exist_ok=True)
         with open(os.path.join(EVIDENCE_DIR, "%s.json" % self.pid), "w") as f:
-            json.dump(ev, f, indent=1)
+            json.dump(ev, f, indent=1, default=str)
         for ln in lines:
             print(ln)
         print(
